@@ -43,6 +43,9 @@ Proof. destruct p as [[x y] z], k; unfold vset, v3add, v3scale, vget, ek; cbn; f
 Lemma vget_vset k j (p : V3) t : vget j (vset k p t) = if match k, j with AX, AX | AY, AY | AZ, AZ => true | _, _ => false end then t else vget j p.
 Proof. destruct p as [[x y] z], k, j; reflexivity. Qed.
 
+Lemma Reqb_false a b : a <> b -> Reqb' a b = false.
+Proof. intros H. unfold Reqb'. destruct (Req_EM_T a b); [contradiction|reflexivity]. Qed.
+
 (* ------------------------------------------------------------------ sums *)
 Lemma tsum_cons a (l : list R) : tsum Rops (a :: l) = a + tsum Rops l.
 Proof. reflexivity. Qed.
@@ -225,6 +228,26 @@ Proof.
     auto_derive; [exact I|]. field. exact Hw.
 Qed.
 
+(* periodic restraint metric (dihedral, polarPhi, periodic distanceZ): away from the half-period cut *)
+Definition var_ok_h (v : var) (x0 c : R) : Prop :=
+  v_width v <> 0 /\
+  (v_periodic v = false \/
+   (v_periodic v = true /\ 0 < v_period v /\ ValueModel.pdiff Rops (v_period v) (x0 - c) <> - v_period v / 2)).
+
+Lemma harm_derive_gen k v x0 c : var_ok_h v x0 c ->
+  is_derive (fun x => harm_potential Rops k v x c) x0 (- harm_force Rops k v x0 c).
+Proof.
+  intros [Hw [Hp|(Hp & HP & Hcut)]]; [apply harm_derive; assumption|].
+  unfold harm_potential, harm_force, dist2, dist2_lgrad, pdiff, wsq. rewrite Hp.
+  change (fun x => nmul Rops (ndiv Rops (nmul Rops (RestraintModel.half Rops) k) (nmul Rops (v_width v) (v_width v)))
+                     (let d := pdiff_p Rops (v_period v) (nsub Rops x c) in nmul Rops d d))
+    with (fun x => (1 / 2 * k) / (v_width v * v_width v) * ValueModel.per_dist2 Rops (v_period v) x c).
+  evar_last.
+  - apply is_derive_scal. apply (CV.C18.ValueProofs.per_grad_derive (v_period v) x0 c HP Hcut).
+  - unfold ValueModel.per_grad. unfold RestraintModel.two, RestraintModel.half, nhalf. cbn [nmul ndiv nneg nsub nofZ n1 Rops].
+    change (pdiff_p Rops (v_period v) (x0 - c)) with (ValueModel.pdiff Rops (v_period v) (x0 - c)). field. exact Hw.
+Qed.
+
 Lemma lin_derive k v x0 c : v_width v <> 0 ->
   is_derive (fun x => lin_potential Rops k v x c) x0 (- lin_force Rops k v).
 Proof.
@@ -316,6 +339,23 @@ Proof.
   - intros a Ha. destruct (Hok a Ha) as (_ & Hw & Hper). apply harm_derive; assumption.
 Qed.
 
+Definition terms_ok_h (cs : list (nat * R)) (ws : list cvar) (x0 : list R) : Prop :=
+  forall ic, In ic cs -> (fst ic < length ws)%nat /\ var_ok_h (rvar Rops (vat Rops ws (fst ic))) (xat Rops x0 (fst ic)) (snd ic).
+
+Lemma terms_ok_h_of cs ws x0 : terms_ok fst cs ws -> terms_ok_h cs ws x0.
+Proof.
+  intros H ic Hin. destruct (H ic Hin) as (Hi & Hw & Hp). split; [exact Hi|]. split; [exact Hw|left; exact Hp].
+Qed.
+
+Lemma bias_force_correct_harmonic_gen k cs ws x0 : terms_ok_h cs ws x0 -> bias_force_correct (BHarmonic k cs) ws x0.
+Proof.
+  intros Hok xs dxs t0 Hx0 Hp. cbn [bias_energy bias_force].
+  apply (separable_correct cs fst (fun ic x => harm_potential Rops k (rvar Rops (vat Rops ws (fst ic))) x (snd ic))
+                           (fun ic v x => harm_force Rops k (rvar Rops (vat Rops ws v)) x (snd ic)) (length ws) x0); auto.
+  - intros a Ha. apply (Hok a Ha).
+  - intros a Ha. destruct (Hok a Ha) as (_ & Hv). apply harm_derive_gen. exact Hv.
+Qed.
+
 Lemma bias_force_correct_linear k cs ws x0 : terms_ok fst cs ws -> bias_force_correct (BLinear k cs) ws x0.
 Proof.
   intros Hok xs dxs t0 Hx0 Hp. cbn [bias_energy bias_force].
@@ -339,6 +379,173 @@ Proof.
   - intros a Ha. apply (Hok a Ha).
   - intros a Ha. destruct (Hok a Ha) as (_ & Hw & Hper). destruct (Hg a Ha) as (G1 & G2 & G3).
     apply walls_derive; assumption.
+Qed.
+
+(* ------------------------------------------------------------------ history-dependent biases at a frozen state *)
+Lemma dist2_nonper_derive (v : var) x0 c : v_periodic v = false ->
+  is_derive (fun x => dist2 Rops v x c) x0 (dist2_lgrad Rops v x0 c).
+Proof.
+  intros Hp. unfold dist2, dist2_lgrad, pdiff. rewrite Hp. unfold RestraintModel.two. cbn [nsub nmul nofZ Rops].
+  auto_derive; [exact I|ring].
+Qed.
+
+(* exp(-s/2) truncated beyond s = 23 *)
+Definition gtrunc (s : R) : R := if Rltb 23 s then 0 else exp (- (1 / 2) * s).
+Lemma gtrunc_derive s0 : s0 <> 23 -> is_derive gtrunc s0 (if Rltb 23 s0 then 0 else - (1 / 2) * gtrunc s0).
+Proof.
+  intros Hne. unfold gtrunc. destruct (Rltb 23 s0) eqn:E.
+  - apply Rltb_true in E. apply (is_derive_ext_loc (fun _ => 0)); [|apply @is_derive_const].
+    assert (Hd : 0 < s0 - 23) by lra. exists (mkposreal _ Hd). intros y Hy.
+    unfold ball in Hy; simpl in Hy; unfold AbsRing_ball, abs, minus, plus, opp in Hy; simpl in Hy. apply Rabs_def2 in Hy.
+    replace (Rltb 23 y) with true by (symmetry; apply Rltb_true; lra). reflexivity.
+  - apply Rltb_false in E. assert (Hlt : s0 < 23) by lra.
+    apply (is_derive_ext_loc (fun s => exp (- (1 / 2) * s))).
+    + assert (Hd : 0 < 23 - s0) by lra. exists (mkposreal _ Hd). intros y Hy.
+      unfold ball in Hy; simpl in Hy; unfold AbsRing_ball, abs, minus, plus, opp in Hy; simpl in Hy. apply Rabs_def2 in Hy.
+      replace (Rltb 23 y) with false by (symmetry; apply Rltb_false; lra). reflexivity.
+    + auto_derive; [exact I|ring].
+Qed.
+
+Definition hill_ok (ws : list cvar) (x0 : list R) (h : R * list (nat * (R * R))) : Prop :=
+  terms_ok fst (snd h) ws /\ (forall t, In t (snd h) -> snd (snd t) <> 0) /\ hill_sqdev Rops ws x0 (snd h) <> 23.
+
+Lemma hill_sqdev_path (ws : list cvar) terms xs dxs t0 x0 :
+  terms_ok fst terms ws -> (forall t, In t terms -> snd (snd t) <> 0) -> xs t0 = x0 -> path_ok xs dxs t0 ->
+  is_derive (fun t => hill_sqdev Rops ws (xs t) terms) t0
+    (- tsum Rops (map (fun v => tsum Rops (map (fun a => if Nat.eqb (fst a) v
+            then - (dist2_lgrad Rops (rvar Rops (vat Rops ws v)) (xat Rops x0 v) (fst (snd a)) / (snd (snd a) * snd (snd a))) else 0) terms)
+          * xat Rops dxs v) (seq 0 (length ws)))).
+Proof.
+  intros Hok Hsig Hx0 Hp. unfold hill_sqdev. cbn [ndiv nmul Rops].
+  apply (separable_correct terms fst
+           (fun a x => dist2 Rops (rvar Rops (vat Rops ws (fst a))) x (fst (snd a)) / (snd (snd a) * snd (snd a)))
+           (fun a v x => - (dist2_lgrad Rops (rvar Rops (vat Rops ws v)) x (fst (snd a)) / (snd (snd a) * snd (snd a))))
+           (length ws) x0); auto.
+  - intros a Ha. apply (Hok a Ha).
+  - intros a Ha. destruct (Hok a Ha) as (_ & Hw & Hper). specialize (Hsig a Ha).
+    apply (is_derive_ext (fun x => / (snd (snd a) * snd (snd a)) * dist2 Rops (rvar Rops (vat Rops ws (fst a))) x (fst (snd a))));
+      [intros x; unfold Rdiv; apply Rmult_comm|].
+    evar_last.
+    + apply is_derive_scal. apply dist2_nonper_derive. exact Hper.
+    + field. exact Hsig.
+Qed.
+
+Lemma hill_value_gtrunc ws xs terms : hill_value Rops ws xs terms = gtrunc (hill_sqdev Rops ws xs terms).
+Proof.
+  unfold hill_value, gtrunc, hf, nhalf, zero, ofnat. cbn [nltb nexp nneg nmul ndiv n0 n1 nofZ Rops].
+  change (IZR (Z.of_nat 23)) with 23. change (IZR 2) with 2.
+  destruct (Rltb 23 (hill_sqdev Rops ws xs terms)); reflexivity.
+Qed.
+
+Lemma sel_scale {A} (terms : list A) (idx : A -> nat) (c : R) (P Q : A -> nat -> R) (vs : list nat) (d : nat -> R) :
+  (forall a v, In a terms -> Q a v = c * P a v) ->
+  tsum Rops (map (fun v => tsum Rops (map (fun a => if Nat.eqb (idx a) v then Q a v else 0) terms) * d v) vs)
+  = c * tsum Rops (map (fun v => tsum Rops (map (fun a => if Nat.eqb (idx a) v then P a v else 0) terms) * d v) vs).
+Proof.
+  intros H. rewrite <- tsum_scale'. apply tsum_ext. intros v _.
+  replace (c * (tsum Rops (map (fun a => if Nat.eqb (idx a) v then P a v else 0) terms) * d v))
+    with (d v * (c * tsum Rops (map (fun a => if Nat.eqb (idx a) v then P a v else 0) terms))) by ring.
+  rewrite <- tsum_scale'. rewrite Rmult_comm. f_equal. apply tsum_ext. intros a Ha.
+  destruct (Nat.eqb (idx a) v); [apply H; exact Ha|ring].
+Qed.
+
+Lemma bias_force_correct_meta hs ws x0 : (forall h, In h hs -> hill_ok ws x0 h) -> bias_force_correct (BMeta hs) ws x0.
+Proof.
+  intros Hok xs dxs t0 Hx0 Hp. cbn [bias_energy bias_force].
+  (* per hill *)
+  set (Fh := fun (h : R * list (nat * (R * R))) (v : nat) =>
+     let val := hill_value Rops ws x0 (snd h) in
+     if neqb Rops val (zero Rops) then zero Rops
+     else tsum Rops (map (fun t => if Nat.eqb (fst t) v
+                                   then fst h * val * (hf Rops / (snd (snd t) * snd (snd t))) * dist2_lgrad Rops (rvar Rops (vat Rops ws v)) (xat Rops x0 v) (fst (snd t))
+                                   else zero Rops) (snd h))).
+  assert (HH : forall h, In h hs ->
+     is_derive (fun t => fst h * hill_value Rops ws (xs t) (snd h)) t0
+               (- tsum Rops (map (fun v => Fh h v * xat Rops dxs v) (seq 0 (length ws))))).
+  { intros h Hin. destruct (Hok h Hin) as (Ht & Hs & Hc).
+    pose proof (hill_sqdev_path ws (snd h) xs dxs t0 x0 Ht Hs Hx0 Hp) as HS.
+    apply (is_derive_ext (fun t => fst h * gtrunc (hill_sqdev Rops ws (xs t) (snd h)))); [intros t; rewrite hill_value_gtrunc; reflexivity|].
+    evar_last.
+    - apply is_derive_scal. apply (is_derive_comp gtrunc (fun t => hill_sqdev Rops ws (xs t) (snd h))); [|exact HS].
+      rewrite Hx0. apply gtrunc_derive. exact Hc.
+    - lazymatch goal with |- context [scal ?a ?b] => change (scal a b) with (Rmult a b) end.
+      unfold Fh. cbv zeta. rewrite hill_value_gtrunc. unfold zero, hf, nhalf. cbn [neqb n0 n1 ndiv nofZ Rops]. change (IZR 2) with 2.
+      unfold gtrunc. destruct (Rltb 23 (hill_sqdev Rops ws x0 (snd h))) eqn:E.
+      + (* beyond the cut-off: value 0, force 0 *)
+        rewrite (proj2 (Reqb_true 0 0) eq_refl).
+        rewrite (tsum_ext (fun v : nat => 0 * xat Rops dxs v) (fun _ => 0)) by (intros; ring). rewrite tsum_zero. ring.
+      + assert (Hex : exp (- (1 / 2) * hill_sqdev Rops ws x0 (snd h)) <> 0) by (apply Rgt_not_eq, exp_pos).
+        rewrite (Reqb_false _ _ Hex).
+        set (val := exp (- (1 / 2) * hill_sqdev Rops ws x0 (snd h))) in *.
+        rewrite (sel_scale (snd h) fst (-1)
+                   (fun (a : nat * (R * R)) (v : nat) => dist2_lgrad Rops (rvar Rops (vat Rops ws v)) (xat Rops x0 v) (fst (snd a)) / (snd (snd a) * snd (snd a)))
+                   (fun (a : nat * (R * R)) (v : nat) => - (dist2_lgrad Rops (rvar Rops (vat Rops ws v)) (xat Rops x0 v) (fst (snd a)) / (snd (snd a) * snd (snd a))))
+                   (seq 0 (length ws)) (xat Rops dxs)) by (intros; ring).
+        rewrite (sel_scale (snd h) fst (fst h * val * (1 / 2))
+                   (fun (a : nat * (R * R)) (v : nat) => dist2_lgrad Rops (rvar Rops (vat Rops ws v)) (xat Rops x0 v) (fst (snd a)) / (snd (snd a) * snd (snd a)))
+                   (fun a v => fst h * val * (1 / 2 / (snd (snd a) * snd (snd a))) * dist2_lgrad Rops (rvar Rops (vat Rops ws v)) (xat Rops x0 v) (fst (snd a)))
+                   (seq 0 (length ws)) (xat Rops dxs)).
+        * ring.
+        * intros a v Ha. field. apply (Hs a Ha). }
+  (* sum over the hills, exchange with the sum over the variables *)
+  evar_last.
+  - apply (is_derive_tsum (fun h t => fst h * hill_value Rops ws (xs t) (snd h))
+                          (fun h => - tsum Rops (map (fun v => Fh h v * xat Rops dxs v) (seq 0 (length ws))))). exact HH.
+  - transitivity (- tsum Rops (map (fun h => tsum Rops (map (fun v => Fh h v * xat Rops dxs v) (seq 0 (length ws)))) hs)).
+    { replace (- tsum Rops (map (fun h => tsum Rops (map (fun v => Fh h v * xat Rops dxs v) (seq 0 (length ws)))) hs))
+        with (-1 * tsum Rops (map (fun h => tsum Rops (map (fun v => Fh h v * xat Rops dxs v) (seq 0 (length ws)))) hs)) by ring.
+      rewrite <- tsum_scale'. apply tsum_ext. intros h _. ring. }
+    f_equal. rewrite tsum_swap. apply tsum_ext. intros v _.
+    rewrite Rmult_comm, <- tsum_scale'. apply tsum_ext. intros h _. unfold Fh. cbv zeta. apply Rmult_comm.
+Qed.
+
+(* ABMD at a fixed reference: E = k/2 min(0, s (x - ref))^2 *)
+Lemma abmd_derive k dec ref x0 : abmd_diff Rops dec x0 ref <> 0 ->
+  is_derive (fun x => if Rltb 0 (abmd_diff Rops dec x ref) then 0 else 1 / 2 * k * abmd_diff Rops dec x ref * abmd_diff Rops dec x ref) x0
+            (- (if Rltb 0 (abmd_diff Rops dec x0 ref) then 0 else - (if dec then -1 else 1) * k * abmd_diff Rops dec x0 ref)).
+Proof.
+  intros Hne. unfold abmd_diff in *. unfold mone, one in *. cbn [nsub nmul nneg n1 Rops] in *.
+  destruct dec.
+  - destruct (Rltb 0 ((x0 - ref) * - (1))) eqn:E.
+    + apply Rltb_true in E.
+      apply (is_derive_ext_loc (fun _ => 0)); [|replace (- 0) with 0 by ring; apply @is_derive_const].
+      exists (mkposreal _ E). intros y Hy.
+      unfold ball in Hy; simpl in Hy; unfold AbsRing_ball, abs, minus, plus, opp in Hy; simpl in Hy. apply Rabs_def2 in Hy.
+      replace (Rltb 0 ((y - ref) * - (1))) with true; [reflexivity|]. symmetry. apply Rltb_true. lra.
+    + apply Rltb_false in E. assert (Hlt : (x0 - ref) * - (1) < 0) by lra.
+      apply (is_derive_ext_loc (fun x => 1 / 2 * k * ((x - ref) * - (1)) * ((x - ref) * - (1)))).
+      * assert (Hd : 0 < - ((x0 - ref) * - (1))) by lra. exists (mkposreal _ Hd). intros y Hy.
+        unfold ball in Hy; simpl in Hy; unfold AbsRing_ball, abs, minus, plus, opp in Hy; simpl in Hy. apply Rabs_def2 in Hy.
+        replace (Rltb 0 ((y - ref) * - (1))) with false; [reflexivity|]. symmetry. apply Rltb_false. lra.
+      * auto_derive; [exact I|field].
+  - destruct (Rltb 0 ((x0 - ref) * 1)) eqn:E.
+    + apply Rltb_true in E.
+      apply (is_derive_ext_loc (fun _ => 0)); [|replace (- 0) with 0 by ring; apply @is_derive_const].
+      exists (mkposreal _ E). intros y Hy.
+      unfold ball in Hy; simpl in Hy; unfold AbsRing_ball, abs, minus, plus, opp in Hy; simpl in Hy. apply Rabs_def2 in Hy.
+      replace (Rltb 0 ((y - ref) * 1)) with true; [reflexivity|]. symmetry. apply Rltb_true. lra.
+    + apply Rltb_false in E. assert (Hlt : (x0 - ref) * 1 < 0) by lra.
+      apply (is_derive_ext_loc (fun x => 1 / 2 * k * ((x - ref) * 1) * ((x - ref) * 1))).
+      * assert (Hd : 0 < - ((x0 - ref) * 1)) by lra. exists (mkposreal _ Hd). intros y Hy.
+        unfold ball in Hy; simpl in Hy; unfold AbsRing_ball, abs, minus, plus, opp in Hy; simpl in Hy. apply Rabs_def2 in Hy.
+        replace (Rltb 0 ((y - ref) * 1)) with false; [reflexivity|]. symmetry. apply Rltb_false. lra.
+      * auto_derive; [exact I|field].
+Qed.
+
+Lemma bias_force_correct_abmd k dec v ref ws x0 : (v < length ws)%nat -> abmd_diff Rops dec (xat Rops x0 v) ref <> 0 ->
+  bias_force_correct (BAbmd k dec v ref) ws x0.
+Proof.
+  intros Hv Hne xs dxs t0 Hx0 Hp. cbn [bias_energy bias_force].
+  unfold hf, nhalf, zero, mone, one. cbn [nltb nmul nneg ndiv n0 n1 nofZ Rops]. change (IZR 2) with 2.
+  rewrite (tsum_ext _ (fun v' => if Nat.eqb v v' then
+      (if Rltb 0 (abmd_diff Rops dec (xat Rops x0 v') ref) then 0 else - (if dec then - (1) else 1) * k * abmd_diff Rops dec (xat Rops x0 v') ref) * xat Rops dxs v' else 0)).
+  2:{ intros v' _. destruct (Nat.eqb v v'); ring. }
+  rewrite (tsum_select (length ws) (fun v' => (if Rltb 0 (abmd_diff Rops dec (xat Rops x0 v') ref) then 0 else - (if dec then - (1) else 1) * k * abmd_diff Rops dec (xat Rops x0 v') ref) * xat Rops dxs v') v 0) by lia.
+  evar_last.
+  - apply (is_derive_comp (fun x => if Rltb 0 (abmd_diff Rops dec x ref) then 0 else 1 / 2 * k * abmd_diff Rops dec x ref * abmd_diff Rops dec x ref)
+                          (fun t => xat Rops (xs t) v)); [rewrite Hx0; apply abmd_derive; exact Hne|apply Hp].
+  - lazymatch goal with |- context [scal ?a ?b] => change (scal a b) with (Rmult a b) end.
+    replace (- (1)) with (-1) by ring. ring.
 Qed.
 
 (* ------------------------------------------------------------------ atom groups *)
@@ -970,8 +1177,6 @@ Proof.
 Qed.
 
 (* ---- distanceXY, fixed (unit) axis ---- *)
-Lemma Reqb_false a b : a <> b -> Reqb' a b = false.
-Proof. intros H. unfold Reqb'. destruct (Req_EM_T a b); [contradiction|reflexivity]. Qed.
 
 Definition vperp (d ax : V3) : V3 := v3sub Rops d (v3scale Rops (v3dot Rops d ax) ax).
 Lemma vperp_line (d e ax : V3) t : vperp (v3add Rops d (v3scale Rops t e)) ax = v3add Rops (vperp d ax) (v3scale Rops t (vperp e ax)).
@@ -1387,6 +1592,14 @@ Proof.
   unfold v3dot, v3sub, v3add, v3scale, vdiv. cbn [nadd nsub nmul ndiv Rops]. intros HL. field. exact HL.
 Qed.
 
+Lemma zmid_plain (pbc : bool) (c1 c2 : V3) :
+  (if pbc then v3add Rops c1 (v3scale Rops (hf Rops) (v3sub Rops c2 c1)) else v3scale Rops (hf Rops) (v3add Rops c1 c2))
+  = v3scale Rops (hf Rops) (v3add Rops c1 c2).
+Proof.
+  destruct pbc; [|reflexivity]. apply v3_ext. intros j. rewrite ?vget_add, ?vget_scale, ?vget_sub, ?vget_add.
+  change (hf Rops) with (1 / 2). field.
+Qed.
+
 Lemma dir_correct_distance_z2 pbc cell (gs : list GD) : gds_wf gs 3 -> plain pbc cell ->
   v3norm2 Rops (v3sub Rops (gd_com Rops (gnth gs 2)) (gd_com Rops (gnth gs 1))) <> 0 ->
   dir_correct (k_distance_z2 Rops pbc cell) gs.
@@ -1397,12 +1610,13 @@ Proof.
   split.
   - unfold k_distance_z2. cbv zeta. cbn [snd]. apply (shape_3 (gnth gs 0) (gnth gs 1) (gnth gs 2)); [apply gds_3; exact Hwf| | |]; apply wgrad_length.
   - intros Ds _. unfold k_distance_z2. cbv zeta. cbn [fst snd]. rewrite dot_lists_3, !wgrad_dot by assumption. rewrite !pdist_plain by exact Hpl.
+    rewrite !(zmid_plain pbc).
     set (cm := gd_com Rops (gnth gs 0)) in *. set (c1 := gd_com Rops (gnth gs 1)) in *. set (c2 := gd_com Rops (gnth gs 2)) in *.
     set (Em := comdir (gnth gs 0) (nth 0 Ds [])). set (E1 := comdir (gnth gs 1) (nth 1 Ds [])). set (E2 := comdir (gnth gs 2) (nth 2 Ds [])).
     apply (is_derive_ext (fun t => v3dot Rops (vunit Rops (v3sub Rops (v3add Rops c2 (v3scale Rops t E2)) (v3add Rops c1 (v3scale Rops t E1))))
                                      (v3sub Rops (v3add Rops cm (v3scale Rops t Em))
                                             (v3scale Rops (hf Rops) (v3add Rops (v3add Rops c1 (v3scale Rops t E1)) (v3add Rops c2 (v3scale Rops t E2))))))).
-    + intros t. rewrite !(com_curve gs 3 Ds _ t Hwf) by lia. rewrite !pdist_plain by exact Hpl. reflexivity.
+    + intros t. rewrite !(com_curve gs 3 Ds _ t Hwf) by lia. rewrite !pdist_plain by exact Hpl. rewrite !(zmid_plain pbc). reflexivity.
     + evar_last.
       * apply (derive_dot (fun t => vunit Rops (v3sub Rops (v3add Rops c2 (v3scale Rops t E2)) (v3add Rops c1 (v3scale Rops t E1))))
                           (fun t => v3sub Rops (v3add Rops cm (v3scale Rops t Em))
@@ -1850,6 +2064,298 @@ Proof.
       * unfold gd_pos. rewrite map_length. exact H0.
 Qed.
 
+(* ---- dipoleMagnitude ---- *)
+Fixpoint zsum (f : R * R * V3 -> V3 -> R) (l : list (R * R * V3)) (D : list V3) : R :=
+  match l, D with a :: l', d :: D' => f a d + zsum f l' D' | _, _ => 0 end.
+Fixpoint dsum (aux : R) (l : list (R * R * V3)) (D : list V3) : V3 :=
+  match l, D with a :: l', d :: D' => v3add Rops (v3scale Rops (aq a - aux * am a) d) (dsum aux l' D') | _, _ => vzero Rops end.
+
+Lemma move_atoms_charge l t D : map aq (move_atoms l t D) = map aq l.
+Proof. revert D. induction l as [|a l IH]; intros D; destruct D as [|d D']; try reflexivity. cbn [move_atoms map]. rewrite IH. reflexivity. Qed.
+Lemma gd_charge_move g t D : gd_charge Rops (move_gd g t D) = gd_charge Rops g.
+Proof. unfold gd_charge. rewrite gd_atoms_move, move_atoms_charge. reflexivity. Qed.
+
+Lemma dipole_get (l : list (R * R * V3)) (c : V3) j :
+  vget j (vsum Rops (map (fun a => v3scale Rops (aq a) (v3sub Rops (ap a) c)) l)) =
+  tsum Rops (map (fun a => aq a * vget j (ap a)) l) - tsum Rops (map aq l) * vget j c.
+Proof.
+  induction l as [|a l IH]; cbn [map].
+  - unfold vsum. cbn [fold_right]. rewrite vget_zero, !tsum_nil. ring.
+  - rewrite vsum_cons, vget_add, IH, vget_scale, vget_sub, !tsum_cons. ring.
+Qed.
+Lemma qp_move (l : list (R * R * V3)) t D j : length D = length l ->
+  tsum Rops (map (fun a => aq a * vget j (ap a)) (move_atoms l t D)) =
+  tsum Rops (map (fun a => aq a * vget j (ap a)) l) + t * zsum (fun a d => aq a * vget j d) l D.
+Proof.
+  revert D. induction l as [|a l IH]; intros D Hl; destruct D as [|d D']; cbn [length] in Hl; try lia.
+  - cbn [move_atoms map zsum]. rewrite tsum_nil. ring.
+  - cbn [move_atoms map zsum]. rewrite !tsum_cons, IH by lia. unfold aq, ap. cbn [fst snd]. rewrite vget_add, vget_scale. ring.
+Qed.
+Lemma wsum_get (l : list (R * R * V3)) D j : length D = length l -> vget j (wsum l D) = zsum (fun a d => am a * vget j d) l D.
+Proof.
+  revert D. induction l as [|a l IH]; intros D Hl; destruct D as [|d D']; cbn [length] in Hl; try lia.
+  - cbn [wsum zsum]. apply vget_zero.
+  - cbn [wsum zsum]. rewrite vget_add, vget_scale, IH by lia. reflexivity.
+Qed.
+Lemma dsum_get aux (l : list (R * R * V3)) D j : length D = length l ->
+  vget j (dsum aux l D) = zsum (fun a d => aq a * vget j d) l D - aux * zsum (fun a d => am a * vget j d) l D.
+Proof.
+  revert D. induction l as [|a l IH]; intros D Hl; destruct D as [|d D']; cbn [length] in Hl; try lia.
+  - cbn [dsum zsum]. rewrite vget_zero. ring.
+  - cbn [dsum zsum]. rewrite vget_add, vget_scale, IH by lia. ring.
+Qed.
+
+Lemma dipole_move (g : GD) t D : gd_dummy g = None -> gd_mass Rops g <> 0 -> length D = length (gd_atoms g) ->
+  dipole Rops (move_gd g t D) (gd_com Rops (move_gd g t D)) =
+  v3add Rops (dipole Rops g (gd_com Rops g)) (v3scale Rops t (dsum (gd_charge Rops g / gd_mass Rops g) (gd_atoms g) D)).
+Proof.
+  intros Hd HM Hl. apply v3_ext. intros j.
+  assert (Hwf : gd_wf g) by (unfold gd_wf; rewrite Hd; exact HM).
+  rewrite (gd_com_move g t D Hwf). unfold dipole. rewrite gd_atoms_move.
+  rewrite vget_add, vget_scale, !dipole_get, move_atoms_charge, (qp_move _ t D j Hl).
+  rewrite vget_add, vget_scale. unfold comdir. rewrite Hd. rewrite vget_div, (wsum_get _ D j Hl), (dsum_get _ _ D j Hl).
+  unfold gd_charge. field. exact HM.
+Qed.
+
+Lemma dot_list_dsum aux (u : V3) (l : list (R * R * V3)) D : length D = length l ->
+  dot_list (map (fun a => v3scale Rops (aq a - aux * am a) u) l) D = v3dot Rops u (dsum aux l D).
+Proof.
+  revert D. induction l as [|a l IH]; intros D Hl; destruct D as [|d D']; cbn [length] in Hl; try lia.
+  - cbn [map dot_list dsum]. rewrite v3dot_get, !vget_zero. ring.
+  - cbn [map dot_list dsum]. rewrite IH by lia. rewrite !v3dot_get, !vget_add, !vget_scale. ring.
+Qed.
+
+Lemma dir_correct_dipole_magnitude (gs : list GD) : length gs = 1%nat ->
+  gd_dummy (gnth gs 0) = None -> gd_mass Rops (gnth gs 0) <> 0 ->
+  v3norm2 Rops (dipole Rops (gnth gs 0) (gd_com Rops (gnth gs 0))) <> 0 ->
+  dir_correct (k_dipole_magnitude Rops) gs.
+Proof.
+  intros Hl Hd HM Hne. pose proof (gds_1 gs Hl) as Egs.
+  split.
+  - unfold k_dipole_magnitude. cbv zeta. cbn [snd]. set (g0 := gnth gs 0) in *. rewrite Egs. cbn [shape_ok]. split; [|exact I].
+    rewrite map_length. reflexivity.
+  - intros Ds Hs. unfold k_dipole_magnitude. cbv zeta. cbn [fst snd]. rewrite dot_lists_1.
+    assert (H0 : length (nth 0 Ds []) = length (gd_atoms (gnth gs 0))).
+    { set (g0 := gnth gs 0) in *. rewrite Egs in Hs. destruct Ds as [|E0 Ds1]; cbn [shape_ok] in Hs; [contradiction|]. cbn [nth]. apply Hs. }
+    cbn [nsub nmul ndiv Rops]. rewrite (dot_list_dsum _ _ _ _ H0).
+    apply (is_derive_ext (fun t => vnorm Rops (v3add Rops (dipole Rops (gnth gs 0) (gd_com Rops (gnth gs 0)))
+              (v3scale Rops t (dsum (gd_charge Rops (gnth gs 0) / gd_mass Rops (gnth gs 0)) (gd_atoms (gnth gs 0)) (nth 0 Ds [])))))).
+    + intros t. rewrite gnth_move, (dipole_move _ t _ Hd HM H0). reflexivity.
+    + apply norm_dir. exact Hne.
+Qed.
+
+Lemma shape_ok_nth (Ds : list (list V3)) (gs : list GD) i : shape_ok Ds gs -> (i < length gs)%nat ->
+  length (nth i Ds []) = length (gd_atoms (gnth gs i)).
+Proof.
+  unfold gnth. revert Ds i. induction gs as [|g gs' IH]; intros Ds i Hs Hi; [cbn in Hi; lia|].
+  destruct Ds as [|D Ds']; cbn [shape_ok] in Hs; [contradiction|]. destruct Hs as [H0 Hs].
+  destruct i as [|i']; cbn [nth]; [exact H0|]. apply IH; [exact Hs|cbn [length] in Hi; lia].
+Qed.
+
+(* ---- dipoleAngle ---- *)
+Lemma dir_correct_dipole_angle pbc cell (gs : list GD) : gds_wf gs 3 -> plain pbc cell ->
+  gd_dummy (gnth gs 0) = None ->
+  let r21 := dipole Rops (gnth gs 0) (gd_com Rops (gnth gs 0)) in
+  let r23 := v3sub Rops (gd_com Rops (gnth gs 2)) (gd_com Rops (gnth gs 1)) in
+  v3norm2 Rops r21 <> 0 -> v3norm2 Rops r23 <> 0 -> -1 < cosang r21 r23 < 1 ->
+  dir_correct (k_dipole_angle Rops PI pbc cell) gs.
+Proof.
+  intros Hwf Hpl Hd r21 r23 Hn1 Hn3 Hc.
+  pose proof (gds_wf_nth gs 3 0 Hwf ltac:(lia)) as W0. pose proof (gds_wf_nth gs 3 1 Hwf ltac:(lia)) as W1.
+  pose proof (gds_wf_nth gs 3 2 Hwf ltac:(lia)) as W2.
+  assert (HM : gd_mass Rops (gnth gs 0) <> 0) by (unfold gd_wf in W0; rewrite Hd in W0; exact W0).
+  assert (Hlen : length gs = 3%nat) by (destruct Hwf; assumption).
+  split.
+  - unfold k_dipole_angle. cbv zeta. cbn [snd]. apply (shape_3 (gnth gs 0) (gnth gs 1) (gnth gs 2)); [apply gds_3; exact Hwf| | |];
+      [rewrite map_length; reflexivity|apply wgrad_length|apply wgrad_length].
+  - intros Ds Hs. pose proof (shape_ok_nth Ds gs 0 Hs ltac:(lia)) as H0.
+    unfold k_dipole_angle. cbv zeta. cbn [fst snd]. rewrite dot_lists_3, !wgrad_dot by assumption. rewrite !pdist_plain by exact Hpl.
+    fold r21 r23.
+    set (aux := gd_charge Rops (gnth gs 0) / gd_mass Rops (gnth gs 0)).
+    set (e1 := dsum aux (gd_atoms (gnth gs 0)) (nth 0 Ds [])).
+    set (c2 := gd_com Rops (gnth gs 1)) in *. set (c3 := gd_com Rops (gnth gs 2)) in *.
+    set (E2 := comdir (gnth gs 1) (nth 1 Ds [])). set (E3 := comdir (gnth gs 2) (nth 2 Ds [])).
+    set (R1 := fun t => v3add Rops r21 (v3scale Rops t e1)).
+    set (R3 := fun t => v3sub Rops (v3add Rops c3 (v3scale Rops t E3)) (v3add Rops c2 (v3scale Rops t E2))).
+    assert (HR1 : vderive R1 0 e1) by apply vderive_line.
+    assert (HR3 : vderive R3 0 (v3sub Rops E3 E2)) by (apply vderive_sub; apply vderive_line).
+    assert (E10 : R1 0 = r21) by (unfold R1; rewrite line_zero; reflexivity).
+    assert (E30 : R3 0 = r23) by (unfold R3, r23; rewrite !line_zero; reflexivity).
+    apply (is_derive_ext (fun t => rad2deg Rops PI * acos (cosang (R1 t) (R3 t)))).
+    + intros t. rewrite (gnth_move gs t Ds 0), (dipole_move _ t _ Hd HM H0).
+      rewrite !(com_curve gs 3 Ds _ t Hwf) by lia. rewrite !pdist_plain by exact Hpl. reflexivity.
+    + assert (Hs' : sqrt (1 - cosang r21 r23 * cosang r21 r23) <> 0).
+      { apply Rgt_not_eq, sqrt_lt_R0. destruct Hc as [Hc1 Hc2]. nra. }
+      assert (Hl1 : vnorm Rops r21 <> 0) by (unfold vnorm; cbn [nsqrt Rops]; apply Rgt_not_eq, sqrt_lt_R0, norm2_pos; exact Hn1).
+      assert (Hl3 : vnorm Rops r23 <> 0) by (unfold vnorm; cbn [nsqrt Rops]; apply Rgt_not_eq, sqrt_lt_R0, norm2_pos; exact Hn3).
+      evar_last.
+      * apply is_derive_scal. apply (is_derive_comp acos (fun t => cosang (R1 t) (R3 t))).
+        -- rewrite E10, E30. apply acos_derive. exact Hc.
+        -- apply (cosang_derive R1 R3 0 _ _ HR1 HR3); [rewrite E10; exact Hn1|rewrite E30; exact Hn3].
+      * rewrite E10, E30.
+        lazymatch goal with |- context [scal ?a ?b] => change (scal a b) with (Rmult a b) end.
+        pose proof (angle_algebra r21 r23 e1 (v3sub Rops E3 E2) (vnorm Rops r21) (vnorm Rops r23)
+                                  (sqrt (1 - cosang r21 r23 * cosang r21 r23)) (rad2deg Rops PI) Hl1 Hl3 Hs') as A.
+        cbv zeta in A. fold (cosang r21 r23) in A.
+        unfold mone, one. cbn [nneg n1 nmul ndiv nsub nadd nsqrt Rops]. fold (cosang r21 r23).
+        replace (- (1)) with (-1) by ring.
+        set (G1 := v3scale Rops (rad2deg Rops PI * (-1 / sqrt (1 - cosang r21 r23 * cosang r21 r23)) * (1 / vnorm Rops r21))
+                            (v3add Rops (vdiv Rops r23 (vnorm Rops r23)) (vdiv Rops (v3scale Rops (-1 * cosang r21 r23) r21) (vnorm Rops r21)))) in *.
+        set (G3 := v3scale Rops (rad2deg Rops PI * (-1 / sqrt (1 - cosang r21 r23 * cosang r21 r23)) * (1 / vnorm Rops r23))
+                            (v3add Rops (vdiv Rops r21 (vnorm Rops r21)) (vdiv Rops (v3scale Rops (-1 * cosang r21 r23) r23) (vnorm Rops r23)))) in *.
+        transitivity (v3dot Rops G1 e1 + v3dot Rops G3 (v3sub Rops E3 E2)).
+        -- rewrite <- A. ring.
+        -- rewrite (map_ext (fun a => v3scale Rops (aq a + -1 * am a * aux) G1) (fun a => v3scale Rops (aq a - aux * am a) G1))
+             by (intros a; f_equal; ring).
+           rewrite (dot_list_dsum aux G1 _ _ H0). fold e1.
+           rewrite !v3dot_sub_r, v3dot_scale_l. ring.
+Qed.
+
+(* ---- coordNum with group2CenterOnly (group1 atoms x centre of mass of group2) ---- *)
+Lemma dir_correct_coordnum_g2c r0 n m (gs : list GD) : length gs = 2%nat -> gd_wf (gnth gs 1) -> r0 <> 0 -> (1 <= n)%nat -> (1 <= m)%nat ->
+  pairs_ok r0 (gd_pos (gnth gs 0)) [gd_com Rops (gnth gs 1)] ->
+  dir_correct (k_coordnum Rops None r0 n m true) gs.
+Proof.
+  intros Hl W1 Hr Hn Hm Hok.
+  assert (Egs : gs = [gnth gs 0; gnth gs 1]) by (destruct gs as [|g0 [|g1 [|g2 r]]]; cbn [length] in Hl; try lia; reflexivity).
+  split.
+  - unfold k_coordnum. cbv zeta. cbn [snd]. apply (shape_2 (gnth gs 0) (gnth gs 1)); [exact Egs| |apply wgrad_length].
+    unfold pair_grad1, gd_pos. rewrite !map_length. reflexivity.
+  - intros Ds Hs. pose proof (shape_ok_nth Ds gs 0 Hs ltac:(lia)) as H0.
+    unfold k_coordnum. cbv zeta. cbn [fst snd]. rewrite dot_lists_2, wgrad_dot by exact W1.
+    set (c2 := gd_com Rops (gnth gs 1)) in *. set (E2 := comdir (gnth gs 1) (nth 1 Ds [])).
+    apply (is_derive_ext (fun t => pair_sum Rops (sw_func Rops None r0 n m) (move_pos (gd_pos (gnth gs 0)) t (nth 0 Ds [])) (move_pos [c2] t [E2]))).
+    + intros t. rewrite (gnth_move gs t Ds 0), gd_pos_move. rewrite (gnth_move gs t Ds 1), (gd_com_move _ t _ W1). reflexivity.
+    + evar_last.
+      * apply pair_dir.
+        -- intros p q Hp Hq. destruct (Hok p q Hp Hq) as [A B]. apply pair_correct_sw; assumption.
+        -- unfold gd_pos. rewrite map_length. exact H0.
+        -- reflexivity.
+      * f_equal. unfold pair_grad2. cbn [map dot_list]. rewrite Rplus_0_r. reflexivity.
+Qed.
+
+(* ---- distanceInv ---- *)
+Lemma zpow_pred x n : x <> 0 -> (n <= 0)%Z -> zpow x (n - 1) = zpow x n / x.
+Proof.
+  intros Hx Hn. destruct n as [|p|p]; [|lia|].
+  - change (0 - 1)%Z with (Z.neg 1). cbn [zpow]. change (Pos.to_nat 1) with 1%nat. cbn [pow]. field. exact Hx.
+  - replace (Z.neg p - 1)%Z with (Z.neg (p + 1)) by lia. cbn [zpow].
+    replace (Pos.to_nat (p + 1)) with (Datatypes.S (Pos.to_nat p)) by lia. cbn [pow].
+    assert (x ^ Pos.to_nat p <> 0) by (apply pow_nonzero; exact Hx). field. split; assumption.
+Qed.
+
+Definition dinvf (e : nat) (p q : V3) : R := ipow Rops (v3norm2 Rops (v3sub Rops q p)) (- Z.of_nat e).
+Definition dinvg (e : nat) (p q : V3) : V3 :=
+  v3scale Rops (-1 * IZR (Z.of_nat e) * (dinvf e p q / v3norm2 Rops (v3sub Rops q p)) * 2) (v3sub Rops q p).
+
+Lemma pair_correct_dinv e (p q : V3) : (1 <= e)%nat -> v3norm2 Rops (v3sub Rops q p) <> 0 ->
+  pair_correct (dinvf e) (dinvg e) p q.
+Proof.
+  intros He Hne dp dq. unfold dinvf, dinvg.
+  set (d := v3sub Rops q p) in *. set (e' := v3sub Rops dq dp).
+  set (N := fun t => v3norm2 Rops (v3add Rops d (v3scale Rops t e'))).
+  assert (HN : is_derive N 0 (v3dot Rops e' d + v3dot Rops d e')).
+  { unfold N, v3norm2. pose proof (derive_dot (fun t => v3add Rops d (v3scale Rops t e')) (fun t => v3add Rops d (v3scale Rops t e')) 0 e' e'
+                                              (vderive_line d e' 0) (vderive_line d e' 0)) as P. cbv beta in P. rewrite !line_zero in P. exact P. }
+  assert (N0 : N 0 = v3norm2 Rops d) by (unfold N; rewrite line_zero; reflexivity).
+  apply (is_derive_ext_loc (fun t => zpow (N t) (- Z.of_nat e))).
+  - assert (Hloc : locally 0 (fun t => N t <> 0)) by (apply (locally_nonzero N 0 _ HN); rewrite N0; exact Hne).
+    generalize Hloc. apply filter_imp. intros t Ht. rewrite (line_sub p q dp dq t). fold d e'. fold (N t).
+    symmetry. apply ipow_zpow. right. exact Ht.
+  - evar_last.
+    + apply (is_derive_comp (fun y => zpow y (- Z.of_nat e)) N); [|exact HN].
+      unfold N. cbv beta. rewrite line_zero. apply zpow_derive. right. exact Hne.
+    + lazymatch goal with |- context [scal ?a ?b] => change (scal a b) with (Rmult a b) end.
+      unfold dinvf. fold d. rewrite (ipow_zpow (v3norm2 Rops d) (- Z.of_nat e)) by (right; exact Hne).
+      rewrite (zpow_pred _ (- Z.of_nat e) Hne) by lia.
+      rewrite v3dot_scale_l, opp_IZR. rewrite (v3dot_get e' d), (v3dot_get d e'). field. exact Hne.
+Qed.
+
+Lemma pair_grad1_ext (f g : V3 -> V3 -> V3) (l1 l2 : list V3) : (forall p q, f p q = g p q) -> pair_grad1 Rops f l1 l2 = pair_grad1 Rops g l1 l2.
+Proof. intros H. unfold pair_grad1. apply map_ext. intros p. f_equal. apply map_ext. intros q. apply H. Qed.
+Lemma pair_grad2_ext (f g : V3 -> V3 -> V3) (l1 l2 : list V3) : (forall p q, f p q = g p q) -> pair_grad2 Rops f l1 l2 = pair_grad2 Rops g l1 l2.
+Proof. intros H. unfold pair_grad2. apply map_ext. intros q. f_equal. apply map_ext. intros p. apply H. Qed.
+
+Lemma pair_sum_pos (f : V3 -> V3 -> R) (l1 l2 : list V3) : l1 <> [] -> l2 <> [] ->
+  (forall p q, In p l1 -> In q l2 -> 0 < f p q) -> 0 < pair_sum Rops f l1 l2.
+Proof.
+  intros H1 H2 Hp. unfold pair_sum.
+  assert (T : forall (g : V3 -> R) (l : list V3), l <> [] -> (forall x, In x l -> 0 < g x) -> 0 < tsum Rops (map g l)).
+  { intros g l. induction l as [|a l IH]; intros Hl Hg; [contradiction|]. cbn [map]. rewrite tsum_cons.
+    destruct l as [|b l']; [cbn [map]; rewrite tsum_nil; pose proof (Hg a (or_introl eq_refl)); lra|].
+    pose proof (Hg a (or_introl eq_refl)). assert (0 < tsum Rops (map g (b :: l'))) by (apply IH; [discriminate|intros x Hx; apply Hg; right; exact Hx]). lra. }
+  apply (T (fun p1 => tsum Rops (map (fun p2 => f p1 p2) l2)) l1 H1). intros p Hin.
+  apply (T (fun p2 => f p p2) l2 H2). intros q Hq. apply Hp; assumption.
+Qed.
+
+Lemma dir_correct_distance_inv pbc cell e (gs : list GD) : length gs = 2%nat -> plain pbc cell -> (1 <= e)%nat ->
+  gd_pos (gnth gs 0) <> [] -> gd_pos (gnth gs 1) <> [] ->
+  (forall p q, In p (gd_pos (gnth gs 0)) -> In q (gd_pos (gnth gs 1)) -> v3norm2 Rops (v3sub Rops q p) <> 0) ->
+  dir_correct (k_distance_inv Rops pbc cell e) gs.
+Proof.
+  intros Hl Hpl He Hn1 Hn2 Hok.
+  assert (Egs : gs = [gnth gs 0; gnth gs 1]) by (destruct gs as [|g0 [|g1 [|g2 r]]]; cbn [length] in Hl; try lia; reflexivity).
+  set (l1 := gd_pos (gnth gs 0)) in *. set (l2 := gd_pos (gnth gs 1)) in *.
+  (* the model's pair functions are dinvf / dinvg *)
+  assert (Ef : forall p q, ipow Rops (v3norm2 Rops (pdist Rops pbc cell p q)) (- Z.of_nat e) = dinvf e p q)
+    by (intros p q; rewrite pdist_plain by exact Hpl; reflexivity).
+  assert (Eg : forall p q, v3scale Rops (mone Rops * ofnat Rops e * (ipow Rops (v3norm2 Rops (pdist Rops pbc cell p q)) (- Z.of_nat e) / v3norm2 Rops (pdist Rops pbc cell p q)) * tw Rops) (pdist Rops pbc cell p q) = dinvg e p q).
+  { intros p q. rewrite !pdist_plain by exact Hpl. unfold dinvg, dinvf, mone, one, ofnat, tw. cbn [nneg n1 nmul ndiv nofZ Rops].
+    change (IZR (Z.of_nat 2)) with 2. f_equal; try ring. }
+  assert (Eps : forall la lb, pair_sum Rops (fun p1 p2 => ipow Rops (v3norm2 Rops (pdist Rops pbc cell p1 p2)) (- Z.of_nat e)) la lb = pair_sum Rops (dinvf e) la lb).
+  { intros la lb. unfold pair_sum. apply tsum_ext. intros p _. apply tsum_ext. intros q _. apply Ef. }
+  split.
+  - unfold k_distance_inv. cbv zeta. cbn [snd]. apply (shape_2 (gnth gs 0) (gnth gs 1)); [exact Egs| |];
+      unfold pair_grad1, pair_grad2, gd_pos; rewrite !map_length; reflexivity.
+  - intros Ds Hs. pose proof (shape_ok_nth Ds gs 0 Hs ltac:(lia)) as H0. pose proof (shape_ok_nth Ds gs 1 Hs ltac:(lia)) as H1.
+    unfold k_distance_inv. cbv zeta. cbn [fst snd]. fold l1 l2. rewrite dot_lists_2, !dot_list_scale.
+    set (Np := ofnat Rops (length l1 * length l2)). set (ex := ofnat Rops (2 * e)).
+    assert (HNp : 0 < Np).
+    { unfold Np, ofnat. cbn [nofZ Rops]. apply IZR_lt. destruct l1, l2; try contradiction. cbn [length]. lia. }
+    assert (Hex : 0 < ex) by (unfold ex, ofnat; cbn [nofZ Rops]; apply IZR_lt; lia).
+    set (Sf := fun t => pair_sum Rops (dinvf e) (move_pos l1 t (nth 0 Ds [])) (move_pos l2 t (nth 1 Ds []))).
+    assert (HS : is_derive Sf 0 (dot_list (pair_grad1 Rops (fun p q => vneg Rops (dinvg e p q)) l1 l2) (nth 0 Ds [])
+                                + dot_list (pair_grad2 Rops (dinvg e) l1 l2) (nth 1 Ds []))).
+    { apply pair_dir; [|unfold l1, gd_pos; rewrite map_length; exact H0|unfold l2, gd_pos; rewrite map_length; exact H1].
+      intros p q Hp Hq. apply pair_correct_dinv; [exact He|apply Hok; assumption]. }
+    assert (S0 : Sf 0 = pair_sum Rops (dinvf e) l1 l2) by (unfold Sf; rewrite !move_pos_zero; reflexivity).
+    assert (Spos : 0 < pair_sum Rops (dinvf e) l1 l2).
+    { apply pair_sum_pos; [exact Hn1|exact Hn2|]. intros p q Hp Hq. unfold dinvf.
+      rewrite ipow_zpow by (right; apply Hok; assumption).
+      destruct e as [|e']; [lia|]. cbn [Z.of_nat Z.opp zpow]. apply Rinv_0_lt_compat. apply pow_lt. apply norm2_pos. apply Hok; assumption. }
+    apply (is_derive_ext (fun t => Rpower (Sf t * (1 / Np)) (-1 / ex))).
+    + intros t. unfold Sf. rewrite !gnth_move, !gd_pos_move. fold l1 l2.
+      rewrite (move_pos_length l1), (move_pos_length l2). fold Np. unfold mone, one. cbn [npow nmul ndiv nneg n1 Rops].
+      rewrite Eps. replace (- (1) / ex) with (-1 / ex) by (unfold Rdiv; ring). reflexivity.
+    + (* gradients of the model in terms of dinvg *)
+      match goal with |- context [pair_grad1 Rops ?f l1 l2] =>
+        rewrite (pair_grad1_ext f (fun p q => vneg Rops (dinvg e p q)) l1 l2) by (intros p q; cbv beta; rewrite <- Eg; reflexivity) end.
+      match goal with |- context [pair_grad2 Rops ?f l1 l2] =>
+        rewrite (pair_grad2_ext f (dinvg e) l1 l2) by (intros p q; cbv beta; rewrite <- Eg; reflexivity) end.
+      set (dS := dot_list (pair_grad1 Rops (fun p q => vneg Rops (dinvg e p q)) l1 l2) (nth 0 Ds [])
+                 + dot_list (pair_grad2 Rops (dinvg e) l1 l2) (nth 1 Ds [])) in *.
+      set (Sb := pair_sum Rops (dinvf e) l1 l2 * (1 / Np)).
+      assert (Sbpos : 0 < Sb) by (unfold Sb; apply Rmult_lt_0_compat; [exact Spos|apply Rdiv_lt_0_compat; lra]).
+      evar_last.
+      * apply (is_derive_comp (fun y => Rpower y (-1 / ex)) (fun t => Sf t * (1 / Np))).
+        -- unfold Sf. cbv beta. rewrite (move_pos_zero l1 (nth 0 Ds [])), (move_pos_zero l2 (nth 1 Ds [])). fold Sb. unfold Rpower. auto_derive; [exact Sbpos|reflexivity].
+        -- apply (is_derive_ext (fun t => (1 / Np) * Sf t)); [intros t; apply Rmult_comm|]. apply is_derive_scal. exact HS.
+      * lazymatch goal with |- context [scal ?a ?b] => change (scal a b) with (Rmult a b) end.
+        fold dS. fold Sb.
+        (* x0^(2e+1) = x0 / Sb *)
+        set (x0 := Rpower Sb (-1 / ex)).
+        assert (Hx0 : 0 < x0) by (unfold x0, Rpower; apply exp_pos).
+        assert (Epow : ipow Rops x0 (Z.of_nat (2 * e + 1)) = x0 / Sb).
+        { rewrite ipow_nat. replace (2 * e + 1)%nat with (Datatypes.S (2 * e)) by lia. cbn [pow].
+          rewrite <- (Rpower_pow (2 * e) x0 Hx0). unfold x0. rewrite Rpower_mult.
+          replace (-1 / ex * INR (2 * e)) with (Ropp 1).
+          - rewrite Rpower_Ropp, (Rpower_1 Sb Sbpos). unfold Rdiv. ring.
+          - unfold ex, ofnat. cbn [nofZ Rops]. rewrite <- INR_IZR_INZ. field. apply not_0_INR. lia. }
+        unfold mone, one. cbn [nneg n1 nmul ndiv npow Rops].
+        rewrite Eps. replace (- (1) / ex) with (-1 / ex) by (unfold Rdiv; ring). fold Sb. fold x0.
+        rewrite Epow. unfold dS. change (exp (-1 / ex * ln Sb)) with x0. field. repeat split; lra.
+Qed.
+
 (* ------------------------------------------------------------------ more components as functions of the atomic coordinates *)
 Lemma grp_ok_3 (s : SYS) g1 g2 g3 : grp_ok s g1 -> grp_ok s g2 -> grp_ok s g3 ->
   List.Forall (wf_group s) [g1; g2; g3] /\ gds_wf (map (gdata_of Rops s) [g1; g2; g3]) 3 /\ List.Forall fit_on [g1; g2; g3].
@@ -1941,6 +2447,59 @@ Proof.
   - apply fit_ok_on. repeat constructor; assumption.
 Qed.
 
+Lemma cvc_grad_correct_coordNum_g2c co e r0 n m g1 g2 (s : SYS) :
+  grp_ok0 s g1 -> grp_ok s g2 -> r0 <> 0 -> (1 <= n)%nat -> (1 <= m)%nat ->
+  pairs_ok r0 (gd_pos (gdata_of Rops s g1)) [gd_com Rops (gdata_of Rops s g2)] ->
+  cvc_grad_correct None (mkCvc co e (KCoordNum r0 n m true) [g1; g2]) s.
+Proof.
+  intros (W1 & F1) (W2 & M2 & F2) Hr Hn Hm Hok.
+  apply group_layer; cbn [c_groups c_kind keval].
+  - repeat constructor; assumption.
+  - apply dir_correct_coordnum_g2c; try assumption; try reflexivity. cbn [map]. unfold gnth. cbn [nth]. apply gd_wf_of. exact M2.
+  - apply fit_ok_on. repeat constructor; assumption.
+Qed.
+
+Lemma cvc_grad_correct_dipoleMagnitude cell co e ids c fit (s : SYS) :
+  grp_ok s (GAtoms ids c fit true) ->
+  v3norm2 Rops (dipole Rops (gdata_of Rops s (GAtoms ids c fit true)) (gd_com Rops (gdata_of Rops s (GAtoms ids c fit true)))) <> 0 ->
+  cvc_grad_correct cell (mkCvc co e KDipoleMagnitude [GAtoms ids c fit true]) s.
+Proof.
+  intros (W & M & F) Hne.
+  apply group_layer; cbn [c_groups c_kind keval].
+  - constructor; [exact W|constructor].
+  - apply dir_correct_dipole_magnitude; cbn [map]; unfold gnth; cbn [nth]; try reflexivity; try assumption.
+    pose proof (gd_wf_of s _ M) as Wf. unfold gd_wf in Wf. cbn [gdata_of gd_dummy] in Wf. exact Wf.
+  - apply fit_ok_on. constructor; [exact F|constructor].
+Qed.
+
+Lemma cvc_grad_correct_dipoleAngle cell pbc co e ids c fit g2 g3 (s : SYS) :
+  grp_ok s (GAtoms ids c fit true) -> grp_ok s g2 -> grp_ok s g3 -> plain pbc cell ->
+  let g1 := GAtoms ids c fit true in
+  let r21 := dipole Rops (gdata_of Rops s g1) (gd_com Rops (gdata_of Rops s g1)) in
+  let r23 := v3sub Rops (gd_com Rops (gdata_of Rops s g3)) (gd_com Rops (gdata_of Rops s g2)) in
+  v3norm2 Rops r21 <> 0 -> v3norm2 Rops r23 <> 0 -> -1 < cosang r21 r23 < 1 ->
+  cvc_grad_correct cell (mkCvc co e (KDipoleAngle pbc) [GAtoms ids c fit true; g2; g3]) s.
+Proof.
+  intros H1 H2 H3 Hpl g1 r21 r23 Hn1 Hn3 Hc. destruct (grp_ok_3 s g1 g2 g3 H1 H2 H3) as (HW & HG & HF).
+  apply group_layer; cbn [c_groups c_kind keval]; [exact HW| |apply fit_ok_on; exact HF].
+  apply dir_correct_dipole_angle; [exact HG|exact Hpl|reflexivity| | |]; cbn [map]; unfold gnth; cbn [nth]; assumption.
+Qed.
+
+Definition inv_ok (l1 l2 : list V3) : Prop :=
+  l1 <> [] /\ l2 <> [] /\ forall p q, In p l1 -> In q l2 -> v3norm2 Rops (v3sub Rops q p) <> 0.
+
+Lemma cvc_grad_correct_distanceInv cell pbc co e ex g1 g2 (s : SYS) :
+  grp_ok0 s g1 -> grp_ok0 s g2 -> plain pbc cell -> (1 <= ex)%nat ->
+  inv_ok (gd_pos (gdata_of Rops s g1)) (gd_pos (gdata_of Rops s g2)) ->
+  cvc_grad_correct cell (mkCvc co e (KDistanceInv pbc ex) [g1; g2]) s.
+Proof.
+  intros (W1 & F1) (W2 & F2) Hpl He (N1 & N2 & Hok).
+  apply group_layer; cbn [c_groups c_kind keval].
+  - repeat constructor; assumption.
+  - apply dir_correct_distance_inv; try assumption; reflexivity.
+  - apply fit_ok_on. repeat constructor; assumption.
+Qed.
+
 (* ------------------------------------------------------------------ closed form: guards instead of abstract hypotheses *)
 Definition com_of (s : SYS) (g : GRP) : V3 := gd_com Rops (gdata_of Rops s g).
 
@@ -1964,11 +2523,26 @@ Definition kind_guard (cell : option V3) (c : cvc) (s : SYS) : Prop :=
   | KCoordNum r0 n m false, [g1; g2] =>
     cell = None /\ grp_ok0 s g1 /\ grp_ok0 s g2 /\ r0 <> 0 /\ (1 <= n)%nat /\ (1 <= m)%nat /\
     pairs_ok r0 (gd_pos (gdata_of Rops s g1)) (gd_pos (gdata_of Rops s g2))          (* no pair coincident or exactly at the cut-off *)
+  | KCoordNum r0 n m true, [g1; g2] =>
+    cell = None /\ grp_ok0 s g1 /\ grp_ok s g2 /\ r0 <> 0 /\ (1 <= n)%nat /\ (1 <= m)%nat /\
+    pairs_ok r0 (gd_pos (gdata_of Rops s g1)) [com_of s g2]
+  | KDipoleMagnitude, [GAtoms ids c fit true] =>
+    grp_ok s (GAtoms ids c fit true) /\
+    v3norm2 Rops (dipole Rops (gdata_of Rops s (GAtoms ids c fit true)) (com_of s (GAtoms ids c fit true))) <> 0
+  | KDipoleAngle pbc, [GAtoms ids c fit true; g2; g3] =>
+    grp_ok s (GAtoms ids c fit true) /\ grp_ok s g2 /\ grp_ok s g3 /\ plain pbc cell /\
+    v3norm2 Rops (dipole Rops (gdata_of Rops s (GAtoms ids c fit true)) (com_of s (GAtoms ids c fit true))) <> 0 /\
+    com_of s g3 <> com_of s g2 /\
+    -1 < cosang (dipole Rops (gdata_of Rops s (GAtoms ids c fit true)) (com_of s (GAtoms ids c fit true)))
+                (v3sub Rops (com_of s g3) (com_of s g2)) < 1
   | KSelfCoordNum r0 n m, [g1] =>
     cell = None /\ grp_ok0 s g1 /\ r0 <> 0 /\ (1 <= n)%nat /\ (1 <= m)%nat /\
     self_ok (fun p q => l2of r0 (v3sub Rops q p) <> 0 /\ l2of r0 (v3sub Rops q p) <> 1) (gd_pos (gdata_of Rops s g1))
   | KInertia, [GAtoms ids (Some z) None false] => z = vzero Rops /\ ids_ok s ids /\ ids <> []
   | KInertiaZ ax, [GAtoms ids (Some z) None false] => z = vzero Rops /\ ids_ok s ids /\ ids <> []
+  | KDistanceInv pbc ex, [g1; g2] =>
+    grp_ok0 s g1 /\ grp_ok0 s g2 /\ plain pbc cell /\ (1 <= ex)%nat /\
+    inv_ok (gd_pos (gdata_of Rops s g1)) (gd_pos (gdata_of Rops s g2))           (* no two atoms of the two groups coincide *)
   | KGyration, [GAtoms ids (Some z) None false] =>
     z = vzero Rops /\ ids_ok s ids /\ ids <> [] /\ cvc_value Rops PI cell c s <> 0
   | _, _ => False
@@ -1991,6 +2565,8 @@ Proof.
     apply cvc_grad_correct_distanceXY; assumption.
   - destruct groups as [|g1 [|g2 [|g3 [|g4 r]]]]; try contradiction. destruct Hk as (H0 & H1 & H2 & Hp & Hn & Hv).
     apply cvc_grad_correct_distanceXY2; assumption.
+  - destruct groups as [|g1 [|g2 [|g3 r]]]; try contradiction. destruct Hk as (H1 & H2 & Hp & He & Hok).
+    apply cvc_grad_correct_distanceInv; assumption.
   - destruct groups as [|[p|ids c fit fg] [|g2 r]]; try contradiction;
       (destruct c as [z|]; try contradiction; destruct fit; try contradiction; destruct fg; try contradiction).
     destruct Hk as (-> & Hi & Hne & Hv). apply cvc_grad_correct_gyration; assumption.
@@ -2002,24 +2578,33 @@ Proof.
     destruct Hk as (-> & Hi & Hne). apply cvc_grad_correct_inertiaZ; assumption.
   - destruct groups as [|g1 [|g2 [|g3 [|g4 r]]]]; try contradiction. destruct Hk as (H1 & H2 & H3 & Hp & Hn1 & Hn3 & Hc).
     apply cvc_grad_correct_angle; assumption.
-  - destruct g2center; try contradiction. destruct groups as [|g1 [|g2 [|g3 r]]]; try contradiction.
-    destruct Hk as (-> & H1 & H2 & Hr & Hn & Hm & Hok). apply cvc_grad_correct_coordNum; assumption.
+  - destruct g2center; (destruct groups as [|g1 [|g2 [|g3 r]]]; try contradiction);
+      destruct Hk as (-> & H1 & H2 & Hr & Hn & Hm & Hok); [apply cvc_grad_correct_coordNum_g2c|apply cvc_grad_correct_coordNum]; assumption.
   - destruct groups as [|g1 [|g2 r]]; try contradiction.
     destruct Hk as (-> & H1 & Hr & Hn & Hm & Hok). apply cvc_grad_correct_selfCoordNum; assumption.
+  - destruct groups as [|[p|ids c fit fg] [|g2 r]]; try contradiction; (destruct fg; try contradiction).
+    destruct Hk as (H1 & Hn). apply cvc_grad_correct_dipoleMagnitude; assumption.
+  - destruct groups as [|[p|ids c fit fg] [|g2 [|g3 [|g4 r]]]]; try contradiction; (destruct fg; try contradiction).
+    destruct Hk as (H1 & H2 & H3 & Hp & Hn1 & Hn3 & Hc).
+    apply cvc_grad_correct_dipoleAngle; try assumption. apply norm2_sub_ne. exact Hn3.
 Qed.
 
 Definition bias_guard (b : bias) (ws : list cvar) (x0 : list R) : Prop :=
   match b with
-  | BHarmonic k cs => terms_ok fst cs ws
+  | BHarmonic k cs => terms_ok_h cs ws x0                (* non-periodic, or periodic away from the half-period cut *)
   | BLinear k cs => terms_ok fst cs ws
   | BWalls k lk uk hl hu l => terms_ok fst l ws /\ walls_guard hl hu l x0
+  | BMeta hs => forall h, In h hs -> hill_ok ws x0 h                         (* no hill exactly at its truncation radius *)
+  | BAbmd k dec v ref => (v < length ws)%nat /\ abmd_diff Rops dec (xat Rops x0 v) ref <> 0   (* not exactly at the reference *)
   end.
 Lemma bias_guard_ok b ws x0 : bias_guard b ws x0 -> bias_force_correct b ws x0.
 Proof.
-  destruct b as [k cs|k lk uk hl hu l|k cs]; cbn [bias_guard].
-  - apply bias_force_correct_harmonic.
+  destruct b as [k cs|k lk uk hl hu l|k cs|hs|k dec v ref]; cbn [bias_guard].
+  - apply bias_force_correct_harmonic_gen.
   - intros [H1 H2]. apply bias_force_correct_walls; assumption.
   - apply bias_force_correct_linear.
+  - apply bias_force_correct_meta.
+  - intros [H1 H2]. apply bias_force_correct_abmd; assumption.
 Qed.
 
 Lemma forces_nth (cf : config) (s : SYS) a : (a < length s)%nat ->
@@ -2080,7 +2665,7 @@ Proof.
       cbn in H. lra.
     + left. cbn. lia.
   - intros b [<-|[<-|[]]]; cbn [bias_guard].
-    + exact T.
+    + apply terms_ok_h_of. exact T.
     + split.
       * intros a [<-|[]]. apply (T (0%nat, 1)). left; reflexivity.
       * intros iw [<-|[]]. cbn [fst snd]. repeat split; try discriminate.
@@ -2096,4 +2681,20 @@ Proof.
     assert (B : min_image1 Rops 8 (1 - 0) = 1) by (rewrite min_image1_pdiff; apply (CV.C18.ValueProofs.pdiff_unique 8 (1 - 0) 1 0); lra).
     unfold cut_free1. cbn [vget v3sub nsub Rops]. rewrite A, B. repeat split; lra.
   - intros [H|H]; discriminate.
+Qed.
+
+Lemma ex_hill : hill_ok [mkCvar 1 false 0 []] [3] (2, [(0%nat, (1, 2))]) /\ abmd_diff Rops false 3 5 <> 0.
+Proof.
+  split.
+  - unfold hill_ok. cbn [snd]. split; [|split].
+    + intros a [<-|[]]. cbn [fst length]. split; [lia|]. unfold var_ok, vat. cbn. split; [lra|reflexivity].
+    + intros t [<-|[]]. cbn. lra.
+    + unfold hill_sqdev, dist2, pdiff, rvar, vat, xat. cbn. lra.
+  - unfold abmd_diff, one. cbn. lra.
+Qed.
+
+Lemma ex_periodic : var_ok_h (mkVar 1 true 360 0) 10 350.
+Proof.
+  split; [cbn; lra|]. right. cbn [v_periodic v_period]. split; [reflexivity|]. split; [lra|].
+  rewrite (CV.C18.ValueProofs.pdiff_unique 360 (10 - 350) 20 (-1)); lra.
 Qed.
